@@ -36,6 +36,8 @@ StringTokenizer::StringTokenizer(const std::string& s, const std::string& delimi
   }
   else
   {
+    if (delimiters.empty())
+      throw Exception("StringTokenizer (constructor). A solid delimiter can't be empty.");
     string::size_type index = 0;
     while (index != s.npos)
     {
